@@ -113,6 +113,28 @@ fn cdiv(z: CDD, w: CDD) -> CDD {
     let s = pow2(-e);
     cscale(z.div(cscale(w, s)), s)
 }
+/// || |L| |U| ||_inf of the LU factorisation with partial pivoting (double-double), or None when a pivot choice is ambiguous
+/// (two candidates within 1e-6 relative: another correct tie-break could take the other row) or an entry is outside 2^+-900.
+/// Every implementation that pivots on a row of largest magnitude obtains these factors up to rounding, and then
+/// |b - A x| <= gamma_3n |L||U||x| componentwise (Higham, Thm 9.4) - a bound without the worst-case growth 2^(n-1).
+fn ref_lu_absprod(a: &[CDD], n: usize) -> Option<f64> {
+    let mut m = a.to_vec();
+    for z in &m { let v = z.abs(); if !v.is_finite() || (v != 0.0 && (v < pow2(-900) || v > pow2(900))) { return None; } }
+    for k in 0..n {
+        let mut p = k; let mut best = m[k * n + k].abs(); let mut second = 0.0f64;
+        for i in k + 1..n { let v = m[i * n + k].abs(); if v > best { second = best; best = v; p = i; } else if v > second { second = v; } }
+        if !(best > 0.0) || second > best * (1.0 - 1e-6) { return None; }
+        if p != k { for j in 0..n { m.swap(k * n + j, p * n + j); } }
+        let piv = m[k * n + k];
+        for i in k + 1..n { let f = cdiv(m[i * n + k], piv); m[i * n + k] = f; if f.abs() != 0.0 { for j in k + 1..n { let t = f.mul(m[k * n + j]); m[i * n + j] = m[i * n + j].sub(t); } } }
+    }
+    // row sums of |L| |U| (L unit lower, stored below the diagonal)
+    let ab: Vec<f64> = m.iter().map(|z| z.abs()).collect();
+    let urow: Vec<f64> = (0..n).map(|k| (k..n).map(|j| ab[k * n + j]).sum()).collect();
+    let mut best = 0.0f64;
+    for i in 0..n { let mut s = urow[i]; for k in 0..i { s += ab[i * n + k] * urow[k]; } best = nmax(best, s); }
+    if best.is_finite() && best > 0.0 { Some(best) } else { None }
+}
 /// reference determinant: elimination with partial pivoting in (complex) double-double
 fn det_ref(a: &[CDD], n: usize) -> CDD {
     let mut m = a.to_vec(); let mut det = CDD::from(1.0, 0.0);
@@ -235,6 +257,7 @@ fn q_solve<T: GEl>(meta: &Value, a0: &Matrix<T>, b: &Vector<T>, want: Option<&Va
     let n = a0.rows();
     let ac = mat_cdd(a0); let bc = vec_cdd(b);
     let na = mat_norm_inf(&ac, n); let nb = vec_norm_inf(&bc);
+    let sharp = if is_rat::<T>() { None } else { ref_lu_absprod(&ac, n) };
     let mut results: Vec<Option<Vector<T>>> = Vec::new();
     for solver in ["basic", "lu"] {
         let mut m = a0.clone();
@@ -254,6 +277,7 @@ fn q_solve<T: GEl>(meta: &Value, a0: &Matrix<T>, b: &Vector<T>, want: Option<&Va
                     let res = residual(&ac, &xc, &bc, n);
                     let (err, unit) = (vec_norm_inf(&res), EPS * (na * vec_norm_inf(&xc) + nb));
                     e["units"] = json!(units(err, unit)); e["units_m"] = json!(units(err, unit / 1000.0));
+                    if let Some(lu) = sharp { let su = EPS * lu * vec_norm_inf(&xc); e["sunits"] = json!(units(err, su)); e["sunits_m"] = json!(units(err, su / 1000.0)); }
                 } else { e["units"] = json!(SAT); }
             }
         }
@@ -277,6 +301,7 @@ fn q_solve<T: GEl>(meta: &Value, a0: &Matrix<T>, b: &Vector<T>, want: Option<&Va
             let ad = residual(&ac, &d, &zero, n);
             let (err, unit) = (vec_norm_inf(&ad), EPS * (na * nmax(vec_norm_inf(&c1), vec_norm_inf(&c2)) + nb));
             e["units"] = json!(units(err, unit)); e["units_m"] = json!(units(err, unit / 1000.0));
+            if let Some(lu) = sharp { let su = EPS * lu * nmax(vec_norm_inf(&c1), vec_norm_inf(&c2)); e["sunits"] = json!(units(err, su)); }
         } else { e["units"] = json!(SAT); }
         out.ev(e);
     }
@@ -332,8 +357,9 @@ fn q_inverse<T: GEl>(meta: &Value, a0: &Matrix<T>, lres: bool, out: &mut Out) {
                     let (na, n1, nx) = (mat_norm_inf(&ac, n), mat_norm_1(&ac, n), mat_norm_max(&xc));
                     let (rerr, runit) = (mat_norm_max(&matmul_minus_id(&ac, &xc, n)), EPS * na * nx);
                     e["runits"] = json!(units(rerr, runit)); e["runits_m"] = json!(units(rerr, runit / 1000.0));
+                    if let Some(lu) = ref_lu_absprod(&ac, n) { let su = EPS * lu * nx; e["srunits"] = json!(units(rerr, su)); e["srunits_m"] = json!(units(rerr, su / 1000.0)); }
                     if lres {
-                        let (lerr, lunit) = (mat_norm_max(&matmul_minus_id(&xc, &ac, n)), EPS * (n as f64) * na * n1 * nx * nx);
+                        let (lerr, lunit) = (mat_norm_max(&matmul_minus_id(&xc, &ac, n)), EPS * (n as f64) * (na * nx) * (n1 * nx));
                         e["lunits"] = json!(units(lerr, lunit)); e["lunits_m"] = json!(units(lerr, lunit / 1000.0));
                     }
                 } else { e["runits"] = json!(SAT); if lres { e["lunits"] = json!(SAT); } }
@@ -463,9 +489,9 @@ pub fn exec(case: &Value, out: &mut Out) {
 // ------------------------------------------------------------------ case generation
 /// integer mantissas (real, imaginary) and binary exponents of an n x n matrix
 #[derive(Clone)]
-struct Gm { n: usize, re: Vec<i64>, im: Vec<i64>, ex: Vec<i64> }
+struct Gm { n: usize, re: Vec<i64>, im: Vec<i64>, ex: Vec<i64>, uni: i64 }   // uni: binary exponent common to ALL entries (tiny ones included)
 impl Gm {
-    fn zeros(n: usize) -> Gm { Gm { n, re: vec![0; n * n], im: vec![0; n * n], ex: vec![0; n * n] } }
+    fn zeros(n: usize) -> Gm { Gm { n, re: vec![0; n * n], im: vec![0; n * n], ex: vec![0; n * n], uni: 0 } }
     fn set(&mut self, i: usize, j: usize, v: (i64, i64)) { self.re[i * self.n + j] = v.0; self.im[i * self.n + j] = v.1; }
     fn get(&self, i: usize, j: usize) -> (i64, i64) { (self.re[i * self.n + j], self.im[i * self.n + j]) }
     fn permute_rows(&self, p: &[usize]) -> Gm { let n = self.n; let mut g = Gm::zeros(n); for i in 0..n { for j in 0..n { g.set(i, j, self.get(p[i], j)); g.ex[i * n + j] = self.ex[p[i] * n + j]; } } g }
@@ -560,7 +586,7 @@ fn fam_lowrank(rng: &mut StdRng, n: usize, d: &Draw, rank: usize) -> Gm {
 }
 
 /// resolve the tiny markers into real binary exponents
-fn final_exps(g: &Gm) -> Vec<i64> { g.ex.iter().map(|e| if *e <= TINY_MARK { -(TINY_MARK - *e) } else { *e }).collect() }
+fn final_exps(g: &Gm) -> Vec<i64> { g.ex.iter().zip(g.re.iter().zip(g.im.iter())).map(|(e, (r, i))| if *r == 0 && *i == 0 { 0 } else { g.uni + if *e <= TINY_MARK { -(TINY_MARK - *e) } else { *e } }).collect() }
 
 /// cases are collected first: the histories ("mix" cases) are assembled from them and written in front
 struct Sink<'a> { out: &'a mut Out, buf: Vec<Value>, counts: std::collections::BTreeMap<String, i64> }
@@ -579,6 +605,7 @@ fn case_json(ty: &str, kind: &str, fam: &str, g: &Gm) -> Value {
     if ty == "cx" { c["ai"] = json!({"r": n, "c": n, "d": g.im}); }
     let ex = final_exps(g);
     if ty != "rat" && ex.iter().any(|e| *e != 0) { c["ae"] = json!(ex); }
+    if ty == "rat" && g.uni != 0 { eprintln!("TOOL-ERROR scaled exact case"); std::process::exit(2) }
     c
 }
 const RAT_AMAX: [i64; 9] = [9, 9, 9, 9, 4, 3, 2, 1, 1];
@@ -723,11 +750,13 @@ pub fn gen(tier: &str, seed: u64, out: &mut Out) {
     if which != "c02" {
         gen_solve(t, seed, &mut sink); gen_solve_hard(t, seed, &mut sink); gen_seq(t, seed, "c01", &mut sink); gen_ill(t, seed, &mut sink); gen_banded(t, seed, "solve", &mut sink);
         mixes.extend(gen_mix(t, seed, "solve", &sink.buf));
+        gen_sweep(t, seed, "solve", &mut sink); gen_wilkinson(t, seed, "solve", &mut sink); gen_large(t, seed, &mut sink);
     }
     let mark = sink.buf.len();
     if which != "c01" {
         gen_det(t, seed, &mut sink); gen_det_hard(t, seed, &mut sink); gen_seq(t, seed, "c02", &mut sink); gen_banded(t, seed, "det", &mut sink);
         mixes.extend(gen_mix(t, seed, "det", &sink.buf[mark..]));
+        gen_sweep(t, seed, "det", &mut sink); gen_wilkinson(t, seed, "det", &mut sink);
     }
     if std::env::var("GAUSS_COUNTS").is_ok() { for (k, v) in &sink.counts { eprintln!("{} {}", k, v); } }
     sink.finish(mixes);
@@ -1033,14 +1062,18 @@ fn householder(rng: &mut StdRng, n: usize, cx: bool) -> Vec<Cf> {
 }
 /// certificate of nonsingularity: elimination with partial pivoting in double-double (error ~1e-30) never meets a pivot
 /// below 1e-22 * max|a|
-fn dd_nonsingular(a: &[Cf], n: usize) -> bool {
+fn dd_nonsingular(a: &[Cf], n: usize) -> bool { dd_pivots_above(a, n, 1e-22) }
+/// every pivot of (double-double) elimination with partial pivoting is at least rel * max|a|.  With rel = 1e-8 the pivots
+/// computed in f64 (error ~1e-13 max|a| for the structures used) cannot vanish: the elimination does not break down, which
+/// is the hypothesis of the backward-error theorem (a matrix with cond >> 1/eps may legitimately yield a zero pivot)
+fn dd_pivots_above(a: &[Cf], n: usize, rel: f64) -> bool {
     let mut m: Vec<CDD> = a.iter().map(|z| CDD::from(z.0, z.1)).collect();
     let amax = mat_norm_max(&m);
     if !(amax > 0.0) || !amax.is_finite() { return false; }
     for k in 0..n {
         let mut p = k; let mut best = m[k * n + k].abs();
         for i in k + 1..n { let v = m[i * n + k].abs(); if v > best { best = v; p = i; } }
-        if !(best > 1e-22 * amax) { return false; }
+        if !(best > rel * amax) { return false; }
         if p != k { for j in 0..n { m.swap(k * n + j, p * n + j); } }
         let piv = m[k * n + k];
         for i in k + 1..n { let f = cdiv(m[i * n + k], piv); for j in k..n { let t = f.mul(m[k * n + j]); m[i * n + j] = m[i * n + j].sub(t); } }
@@ -1153,6 +1186,110 @@ fn gen_banded(tier: &str, seed: u64, kind: &str, sink: &mut Sink) {
                 let ok = if kind == "solve" { let b = b_random(&mut rng, n, cx, 3); push_solve(sink, ty, &name, &g, &b, &vec![0; n], 1) }
                          else { g.nonsingular() && push_det(sink, ty, &name, &g, 1, true, false) };
                 if ok { break; }
+            }
+        }
+    } } }
+}
+
+// ------------------------------------------------------------------ wave 7: exponent sweep, growth adversaries, sizes beyond 8
+fn push_float_det(sink: &mut Sink, ty: &str, fam: &str, n: usize, a: &[Cf], det: bool) -> bool {
+    if !dd_nonsingular(a, n) { return false; }
+    let cx = ty == "cx";
+    let (mut am, mut ae, mut aim, mut aie) = (vec![], vec![], vec![], vec![]);
+    for z in a { let (m, e) = split_f64(z.0); let (mi, ei) = split_f64(if cx { z.1 } else { 0.0 }); am.push(m); ae.push(e); aim.push(mi); aie.push(ei); }
+    let cd: Vec<CDD> = a.iter().map(|z| CDD::from(z.0, z.1)).collect();
+    let mut c = json!({"ty": ty, "kind": "det", "fam": fam, "n": n, "a": {"r": n, "c": n, "d": am}, "ae": ae, "inv": true, "sing": false, "lres": kappa_ok(&cd, n)});
+    if cx { c["ai"] = json!({"r": n, "c": n, "d": aim}); c["aie"] = json!(aie); }
+    if !det { c["nodet"] = json!(true); }
+    sink.push(c); true
+}
+/// the binary exponents of the sweep: the whole range in steps of 25 plus the places where products of two entries leave the range
+fn sweep_grid(lim: i64) -> Vec<i64> {
+    let mut g: Vec<i64> = (-40..=40).map(|q| q * 25).collect();
+    g.extend([511, 512, 513, 537, 538, 600, -511, -512, -513, -537, -538, -600]);
+    g.retain(|k| k.abs() <= lim); g.sort(); g.dedup(); g
+}
+/// zero / tiny leading pivot systems (an exchange is REQUIRED) scaled by 2^k for every k of the grid: pivoting must not depend on
+/// the common magnitude of the entries.  kind = "solve": both solvers; kind = "det": determinant where representable, inverse
+fn gen_sweep(tier: &str, seed: u64, kind: &str, sink: &mut Sink) {
+    let mut rng = rng(seed, if kind == "solve" { 1101 } else { 1102 });
+    let reps = if tier == "quick" { 1 } else { 4 };
+    for _rep in 0..reps { for ty in ["f64", "cx"] {
+        let cx = ty == "cx";
+        // Complex<f64>::abs() squares the entries: the crate's complex range ends near 2^+-500
+        let cxlim: i64 = std::env::var("GAUSS_CX_LIM").ok().and_then(|v| v.parse().ok()).unwrap_or(500);   // diagnostic override only
+        let lim = if cx { cxlim } else if kind == "solve" { 1000 } else { 950 };
+        let small = Draw { cx, amax: 3 };
+        for k in sweep_grid(lim) { for n in [2usize, 3, 4, 5] {
+            if (k.abs() > 900 || cx && k.abs() > 450 && cxlim == 500) && n > 3 { continue; }
+            for _try in 0..30 {
+                let s = rng.gen_range(0..n - 1); let r0 = rng.gen_range(s + 1..n);
+                // the leading pivot is exactly zero, or tiny (2^-57 relative) where that is still representable
+                let tiny = if k - 60 > -1000 && rng.gen_bool(0.4) { 57 } else { 0 };
+                let mut g = fam_zeropiv(&mut rng, n, &small, s, r0, tiny, true);
+                if !g.nonsingular() { continue; }
+                g.uni = k;
+                let name = format!("sweep{}", if tiny > 0 { "_tiny" } else { "" });
+                let ok = if kind == "solve" { let b = b_random(&mut rng, n, cx, 3); push_solve(sink, ty, &name, &g, &b, &vec![k; n], 1) }
+                         else { push_det(sink, ty, &name, &g, 1, (k.abs() + 6) * (n as i64) <= 1000, false) };
+                if ok { break; }
+            }
+        } }
+    } }
+}
+/// growth-factor adversaries: diagonal d_j (1 + noise), strictly lower entries -rho d_j (1 + noise), last column ones (+ noise);
+/// also transposed and with permuted rows.  Partial pivoting keeps every multiplier <= 1 whatever rho is.
+fn gen_wilkinson(tier: &str, seed: u64, kind: &str, sink: &mut Sink) {
+    let mut rng = rng(seed, if kind == "solve" { 1201 } else { 1202 });
+    let reps = if tier == "quick" { 1 } else { 4 };
+    for _rep in 0..reps { for ty in ["f64", "cx"] { for n in 2..=8usize { for rho in [0.9f64, 1.5, 3.0, 8.0, 12.0, 15.5, 31.0, 100.0, 1000.0] { for variant in 0..3 {
+        let cx = ty == "cx";
+        let noise = |rng: &mut StdRng| 1.0 + rng.gen_range(-0.03..0.03);
+        let phase: Cf = if cx { (0.6, 0.8) } else { (1.0, 0.0) };
+        let dscale = [1.0, 0.1, 3.7][rng.gen_range(0..3)];
+        let mut a = vec![(0.0, 0.0); n * n];
+        let d: Vec<f64> = (0..n).map(|j| dscale * (1.0 + 0.01 * j as f64) * noise(&mut rng)).collect();
+        for i in 0..n { for j in 0..n {
+            let v = if j == n - 1 { dscale * noise(&mut rng) } else if i == j { d[j] } else if i > j { -rho * d[j] * noise(&mut rng) } else { 0.0 };
+            a[i * n + j] = cf_mul((v, 0.0), phase);
+        } }
+        if variant == 1 { let t: Vec<Cf> = (0..n * n).map(|q| a[(q % n) * n + q / n]).collect(); a = t; }
+        if variant == 2 { let p = rand_perm(&mut rng, n); let t: Vec<Cf> = (0..n * n).map(|q| a[p[q / n] * n + q % n]).collect(); a = t; }
+        let name = format!("wilk{}_{}", rho, ["plain", "transposed", "permuted"][variant]);
+        if kind == "solve" {
+            let xt: Vec<Cf> = (0..n).map(|_| (rng.gen_range(0.5..1.5), if cx { rng.gen_range(-1.0..1.0) } else { 0.0 })).collect();
+            push_float_solve(sink, ty, &name, n, &a, &matvec_cf(&a, &xt, n));
+        } else { push_float_det(sink, ty, &name, n, &a, true); }
+    } } } } }
+}
+
+/// orders beyond 8 (31..129, around powers of two): banded, block and sparse-structured systems that are NOT diagonally dominant
+/// (rows are exchanged, the band fills in).  20-bit random values; nonsingular modulo 2^31-1.  Judged by the |L||U| bound.
+fn gen_large(tier: &str, seed: u64, sink: &mut Sink) {
+    let mut rng = rng(seed, 1301);
+    let sizes: Vec<usize> = if tier == "quick" { vec![31, 32, 33, 40, 48, 64, 65, 100, 128, 129] } else { vec![9, 12, 16, 17, 24, 31, 32, 33, 40, 48, 63, 64, 65, 80, 100, 127, 128, 129] };
+    let reps = if tier == "quick" { 1 } else { 3 };
+    for _rep in 0..reps { for &n in &sizes { for ty in ["f64", "cx"] {
+        let cx = ty == "cx";
+        let d = Draw { cx, amax: 1 << 20 };
+        let structures: Vec<(String, Box<dyn Fn(usize, usize) -> bool>)> = vec![
+            ("band_2_1".into(), Box::new(|i, j| i <= j + 2 && j <= i + 1)),
+            ("band_3_3".into(), Box::new(|i, j| i <= j + 3 && j <= i + 3)),
+            ("band_4_0".into(), Box::new(|i, j| i <= j + 4 && j <= i)),
+            ("band_2_5".into(), Box::new(|i, j| i <= j + 2 && j <= i + 5)),
+            ("blocktri4".into(), Box::new(|i, j| { let (bi, bj) = (i / 4, j / 4); bi == bj || bi == bj + 1 || (bj == bi + 1 && (i + j) % 3 == 0) })),
+            ("arrow_band".into(), Box::new(move |i, j| i == n - 1 || j == n - 1 || (i <= j + 2 && j <= i))),
+            ("sparse_perm".into(), Box::new(|i, j| (i * 7 + 3) % 11 == j % 11 || i == j || (i + 2 * j) % 13 == 0)),
+        ];
+        for (name, inside) in &structures {
+            for _try in 0..10 {
+                let mut g = Gm::zeros(n);
+                for i in 0..n { for j in 0..n { if inside(i, j) { g.set(i, j, d.nz(&mut rng)); } } }
+                add_scaling(&mut rng, &mut g, 0, 0, -20);
+                let vals: Vec<Cf> = (0..n * n).map(|q| (g.re[q] as f64 * pow2(g.ex[q]), g.im[q] as f64 * pow2(g.ex[q]))).collect();
+                if !dd_pivots_above(&vals, n, 1e-8) { continue; }     // numerically singular (e.g. long random triangular bands): outside the domain
+                let b = b_random(&mut rng, n, cx, 9);
+                if push_solve(sink, ty, &format!("large_{}", name), &g, &b, &vec![0; n], 1) { break; }
             }
         }
     } } }
